@@ -214,8 +214,9 @@ PROPS = {
             "functions; rebuild_structure and reduce_evaluate consume the recorded paths as the contracts say (not verified)",
         ],
         "assumptions": [],
-        "not_decided": ["that the published value is the fold (combiner wiring and publication)", "order-independence of the result value (needs a commutative user combiner)",
-                        "reduce_layout (wiring-time tree for fixed TSL) is not yet under contract"],
+        "not_decided": ["that the published value is the fold (combiner wiring and publication): only bounded (native:c11_fold), not proved",
+                        "order-independence of the result value beyond the bounded enumeration (needs a commutative user combiner)",
+                        "reduce_layout (wiring-time tree for fixed TSL) is not under contract; exercised by the bounded enumeration only"],
     },
     "C05": {
         "modules": ["contracts.c05_collections", "contracts.c05_window"],
